@@ -131,3 +131,21 @@ Ltac kfin :=
   first [ reflexivity
         | f_equal; first [ reflexivity | autounfold with kmodel; unfold clamp, wrap_u8; cbn [ilo ihi imod]; lia ]
         | autounfold with kmodel; unfold clamp; lia ].
+
+(* ---- structure-agnostic symbolic execution for scalar kernels: step through the checked operations in whatever order the
+   source has them, split on every condition of either side, and close each case (contradictory ones included) by linear
+   arithmetic over the unfolded model definitions *)
+Ltac kcase :=
+  match goal with
+  | |- context [if ?c then _ else _] =>
+      lazymatch c with context [if _ then _ else _] => fail | _ => idtac end;
+      let E := fresh "Ec" in destruct c eqn:E
+  end.
+Ltac kfin2 :=
+  subst; autounfold with kmodel; unfold clamp;
+  first [ reflexivity | lia | (exfalso; lia)
+        | match goal with
+          | |- Ok _ = Ok _ => f_equal; kfin2
+          | |- (_, _) = (_, _) => f_equal; kfin2
+          end ].
+Ltac kauto := repeat (first [ progress (cbv zeta) | kstep | kcase ]); kfin2.
